@@ -123,9 +123,9 @@ func voovBlock(r *vrand, lines int) string {
 }
 
 // vmalformed produces the "malformed stream": invalid UTF-8, NULs, entity soup,
-// hyphen/newline storms, long lines, empty inputs.
+// hyphen/newline storms, long lines, empty inputs, notice-only inputs.
 func vmalformed(r *vrand, i int) []byte {
-	switch i % 12 {
+	switch i % 13 {
 	case 0:
 		return nil
 	case 1:
@@ -172,6 +172,17 @@ func vmalformed(r *vrand, i int) []byte {
 		return []byte(strings.Repeat("-\n", 1+r.intn(200)))
 	case 10:
 		return []byte(strings.Repeat("a", 1+r.intn(5000)))
+	case 12:
+		// lines the tokenizer consumes whole (copyright notices, dates) and wordless lines
+		// only: a document with Copyright matches but no tokens
+		var sb bytes.Buffer
+		for j := 0; j < 1+r.intn(5); j++ {
+			sb.WriteString([]string{"Copyright (c) 2020 Foo", "// Copyright 2019 Foo Inc.", "2020-01-31", "  copyright 1999 bar", "--- ***", "", "(c) 2001 x"}[r.intn(7)])
+			if j > 0 || r.chance(3, 4) {
+				sb.WriteByte('\n')
+			}
+		}
+		return sb.Bytes()
 	default:
 		return []byte(voovBlock(r, r.intn(5)) + "Permission is hereby granted, free of charge\n" + voovBlock(r, r.intn(3)))
 	}
